@@ -294,6 +294,33 @@ def node_list_measures(ctx, kind, o0, o1, perm, n, cid, case, r):
                                "orig": a, "relabelled": b}, cid)
 
 
+def mirror_measures(ctx, kind, o0, o1, perm, n, cid, case):
+    """Rebuilt visibility graph of the reversed series: same network with the
+    nodes renumbered back to front; retarded and advanced measures swap."""
+    ctx.count("mirror_objects")
+    A0 = np.asarray(o0.adjacency)
+    A1 = np.asarray(o1.adjacency)
+    if not np.array_equal(A0[np.ix_(perm, perm)], A1):
+        ctx.violation(f"{kind}:rebuilt-from-reversed-series:not-the-"
+                      "renumbered-network", {**case, "perm": perm}, cid)
+        return
+    for m in ("degree", "local_clustering", "closeness", "betweenness"):
+        for a, b in (("retarded_", "advanced_"), ("advanced_", "retarded_")):
+            ok0, v0 = ctx.call(getattr(o0, a + m))
+            ok1, v1 = ctx.call(getattr(o1, b + m))
+            ctx.evals(2)
+            if not (ok0 and ok1):
+                if ok0 != ok1:
+                    ctx.violation(f"{kind}:{a}{m}:raises-on-one-labelling",
+                                  {**case, "exc": repr(v1 if ok0 else v0)},
+                                  cid)
+                continue
+            ctx.count(f"kind:{kind}")
+            if not eq(np.asarray(v0, float)[perm], v1, 1e-9):
+                ctx.violation(f"{kind}:{a}{m}:not-mirrored-by-reversal",
+                              {**case, "orig": v0, "reversed": v1}, cid)
+
+
 def build_case(ctx, kind, r, small):
     """-> dict(o0 builder inputs) ; returns (make(perm) -> object, n, info)"""
     from pyunicorn.core import (Network, GeoNetwork, InteractingNetworks,
@@ -385,16 +412,23 @@ def build_case(ctx, kind, r, small):
         from pyunicorn.timeseries import VisibilityGraph
         n = int(r.integers(4, (7 if small else 14)))
         x = r.integers(0, 5, n).astype(float)
-        vg = VisibilityGraph(x, silence_level=3)
+        hz = bool(r.integers(0, 2))
+        vg = VisibilityGraph(x, horizontal=hz, silence_level=3)
         A = np.asarray(vg.adjacency).astype(np.int8)
 
         def make(p):
             if np.array_equal(p, np.arange(n)):
                 return vg          # the real object (inherited measures)
+            if np.array_equal(p, np.arange(n)[::-1]):
+                # the one renumbering that can be realised by rebuilding the
+                # object: the graph of the time-reversed series
+                return VisibilityGraph(x[::-1].copy(), horizontal=hz,
+                                       silence_level=3)
             return InteractingNetworks(adjacency=A[np.ix_(p, p)],
                                        silence_level=3)
-        return make, n, {"x": x, "key": G.canon_key(A), "have_attr": False,
-                         "connected": False}
+        return make, n, {"x": x, "horizontal": hz,
+                         "key": (G.canon_key(A), hz), "have_attr": False,
+                         "connected": False, "mirror": True}
     raise ValueError(kind)
 
 
@@ -424,6 +458,10 @@ def run(ctx):
         for p in perms_for(ctx, r, n, True):
             with ctx.quiet():
                 o1 = make(p)
+            if info.get("mirror") and type(o1) is type(o0):
+                mirror_measures(ctx, kind, o0, o1, p, n, cid,
+                                {"kind": kind, "x": info["x"],
+                                 "horizontal": info["horizontal"]})
             case = {"kind": kind, **{kk: vv for kk, vv in info.items()
                                      if kk not in ("connected",)}}
             compare_objects(ctx, kind, o0, o1, p, n, cid, case,
@@ -448,9 +486,14 @@ def run(ctx):
                 o0 = make(np.arange(n))
             case = {"kind": kind, **{kk: vv for kk, vv in info.items()
                                      if kk not in ("connected",)}}
-            for p in perms_for(ctx, r, n, False):
+            pl = perms_for(ctx, r, n, False)
+            if info.get("mirror") and n > 1:
+                pl.append(np.arange(n)[::-1].copy())
+            for p in pl:
                 with ctx.quiet():
                     o1 = make(p)
+                if info.get("mirror") and type(o1) is type(o0):
+                    mirror_measures(ctx, kind, o0, o1, p, n, cid, case)
                 compare_objects(ctx, kind, o0, o1, p, n, cid, case,
                                 info["have_attr"], pick=25,
                                 spectral_ok=info["connected"])
